@@ -16,6 +16,39 @@ def side_reads(f):
     return {"sub": "_substrates" in s or ".substrates" in s, "prod": "_products" in s or ".products" in s}
 
 
+def coefficient_sum(f0, sides):
+    """is some local of f0 the sum of the coefficients of self.<one of sides>?  Loop and sum() forms are read alike.
+    -> (accumulator name or None, explanation)"""
+    from .. import pysym, pynorm
+    from ..poly import Rat
+    f = pynorm.desummed(f0)
+    loops = [x for x in ast.walk(f) if isinstance(x, ast.For)]
+    if len(loops) != 1:
+        return None, "coefficient loop not found"
+    lp = loops[0]
+    accs = {pyfe.src(x.target) for x in ast.walk(lp) if isinstance(x, ast.AugAssign)} | \
+           {pyfe.src(x.targets[0]) for x in ast.walk(lp) if isinstance(x, ast.Assign)}
+    if len(accs) != 1:
+        return None, "accumulator not identified (%s)" % sorted(accs)
+    acc = list(accs)[0]
+    try:
+        step = pysym.one_iteration(lp.body, f, acc) - Rat.sym("ACC")
+    except pysym.NotModelled as e:
+        return None, str(e)
+    it, tg = pyfe.src(lp.iter), pyfe.src(lp.target)
+    ok = False
+    for side in sides:
+        ok = ok or (it in ("list(self.%s)" % side, "self.%s" % side, "self.%s.keys()" % side, "list(self.%s.keys())" % side) and
+                    step.equals(Rat.sym("self.%s[%s]" % (side, tg)))) or \
+            (it in ("self.%s.values()" % side, "list(self.%s.values())" % side) and step.equals(Rat.sym(tg))) or \
+            (it in ("self.%s.items()" % side, "list(self.%s.items())" % side) and isinstance(lp.target, ast.Tuple) and
+             step.equals(Rat.sym(pyfe.src(lp.target.elts[1]))))
+    init = [x for x in f.body if isinstance(x, ast.Assign) and pyfe.src(x.targets[0]) == acc and pyfe.src(x.value) == "0"]
+    if not (ok and len(init) == 1):
+        return None, "loop over %s adds %r per pass" % (it, step)
+    return acc, ""
+
+
 def rule_dims(ctx, py):
     R = "C19.DIMS"
     from .. import pysym
@@ -88,9 +121,12 @@ def rule_sides(ctx, py):
     # order / rorder sum the coefficients
     for name, side in (("order", "substrates"), ("rorder", "products")):
         f = py.fn(RX + name)
-        loops = [x for x in ast.walk(f) if isinstance(x, ast.For)]
-        ok = len(loops) == 1 and pyfe.src(loops[0].body[0]) == "o += self.%s[%s]" % (side, pyfe.src(loops[0].target))
-        ctx.check(ok, R, f, f._qual, "%s = sum of %s coefficients" % (name, side), "", "")
+        acc, why = coefficient_sum(f, (side, "_" + side))
+        from .. import pynorm
+        rets = [r_ for r_ in ast.walk(pynorm.desummed(f)) if isinstance(r_, ast.Return) and r_.value is not None]
+        ok = acc is not None and len(rets) == 1 and pyfe.src(rets[0].value) == acc
+        ctx.check(ok, R, f, f._qual, "%s = sum of %s coefficients" % (name, side), "", "%s is not the coefficient sum of the %s (%s)"
+                  % (name, side, why or "the sum is not what is returned"))
     ctx.floor(R, 16)
 
 
